@@ -18,20 +18,20 @@ theorem uc_refresh_snapshot (u : Uc) (ha : u.asleep = false) :
     (u.feed (.c 0x12 [])).refreshes =
       { asleep := false, initialised := u.initialised, powered := u.powered, partialWin := u.partialOn }
         :: u.refreshes := by
-  simp [Uc.feed, ha, Uc.snap]
+  simp [Uc.feed, Uc.regStep, ha, Uc.snap]
 
 theorem uc_power_on (u : Uc) (ha : u.asleep = false) : (u.feed (.c 0x04 [])).powered = true := by
-  simp [Uc.feed, ha]
+  simp [Uc.feed, Uc.regStep, ha]
 
 theorem uc_power_off (u : Uc) (ha : u.asleep = false) : (u.feed (.c 0x02 [])).powered = false := by
-  simp [Uc.feed, ha]
+  simp [Uc.feed, Uc.regStep, ha]
 
 theorem uc_reset_unpowers (u : Uc) : (u.feed .rst).powered = false ∧ (u.feed .rst).initialised = false :=
   ⟨rfl, rfl⟩
 
 theorem uc_refresh_asleep_flagged (u : Uc) (ha : u.asleep = true) :
     ((u.feed (.c 0x12 [])).refreshes.head?.map (·.asleep)) = some true := by
-  simp [Uc.feed, ha, Uc.snap]
+  simp [Uc.feed, Uc.regStep, ha, Uc.snap]
 
 theorem ssd_refresh_snapshot (s : Ssd) (ha : s.asleep = false) (hd : s.uc2.toNat / 4 % 2 = 1) :
     (s.feed (.c 0x20 [])).refreshes =
